@@ -8,7 +8,7 @@
    [new_reader (finalize w) = Some r] : NewReader on the sections Finalize produced;  theorem 4 says
    that going through the byte image changes nothing ([finalize_reader]). *)
 From Coq Require Import NArith List Lia.
-Require Import Pk.IndexFormat Pk.IndexFormatCodec Pk.IndexFormatHosts Pk.IndexFormatWriter Pk.IndexFormatData Pk.IndexFormatPackets Pk.IndexFormatLookup Pk.IndexFormatScan Pk.IndexFormatAccepts Pk.IndexFormatTimes Pk.IndexFormatFits Pk.IndexFormatRefuted.
+Require Import Pk.IndexFormat Pk.IndexFormatCodec Pk.IndexFormatHosts Pk.IndexFormatWriter Pk.IndexFormatData Pk.IndexFormatPackets Pk.IndexFormatLookup Pk.IndexFormatScan Pk.IndexFormatAccepts Pk.IndexFormatTimes Pk.IndexFormatChunks Pk.IndexFormatFits Pk.IndexFormatRefuted.
 Import ListNotations.
 Open Scope N_scope.
 
@@ -161,14 +161,47 @@ Theorem C01_data_of_stored_stream : forall gcap L w r,
                 compress (map c_dir cks) = compress (nz_dirs (data_runs (s_packets s) (s_data s))).
 Proof. exact data_stored. Qed.
 
-(* The Time field of the Data() chunks.  carries s q: q is a packet of s whose data item is not empty.
-   Proved: for streams of ANY duration (the time-wrap bookkeeping of the first loop of Data(): expectWraps,
-   lastRelPacketTimeMS, skipping only once no further wrap is expected) every chunk carries the microsecond-truncated
-   timestamp of a data-carrying packet of the chunk's direction.
-   _partial, missing: WHICH packet - the statement that it is the first packet of the chunk's group, a group being a
-   maximal run of data packets of one direction whose consecutive timestamps are less than 50 ms apart (cut again at
-   direction-run boundaries of the segmentation).  The correspondence run compares exactly that on every case. *)
-Theorem C01_data_chunk_times_partial : forall gcap L w r,
+(* ---- the complete Data(), Time field included ----
+   groups_of s: computed from the INPUT packets alone: per direction the list of (time, bytes) of the 50 ms merge
+   groups; a data packet joins the newest group of its direction iff the previous data packet has the same direction
+   and is less than 50 ms older (microsecond-truncated times), else it opens a group whose time is its own.
+   data_spec s: the stored segmentation replayed over these groups and the stored payload.
+   Proved for streams of any duration: expectWraps / lastRelPacketTimeMS bookkeeping, skipping only after the last
+   wrap, 64 KiB split records and extra sources merged into their packet. *)
+Theorem C01_data_is_replay_over_input_groups : forall gcap L w r,
+  16 < gcap <= 4 * P16 ->
+  Forall (fun ids => wf_meta (snd ids)) L ->
+  add_streams gcap new_writer L = Some w -> new_reader (finalize w) = Some r -> lenN (w_packets w) < P32 ->
+  forall k id s rec, nth_error L k = Some (id, s) -> wf_packets s -> wf_data s ->
+    lenN (stream_payload s false) + lenN (stream_payload s true) < P64 ->
+    nth_error (all_streams r) k = Some rec -> data r rec = data_spec s.
+Proof. exact data_is_spec. Qed.
+
+(* WHICH packet's time a chunk carries, and the order of chunk times.
+   Pstart s d t : s_packets s = pre ++ q :: post where q carries data (packet_size <> 0), has direction d and
+   microsecond-truncated time t, and q OPENS a merge group: the last data packet before it (last_data .. pre) does not
+   exist, or has the other direction, or is at least 50 ms older.  Since a chunk takes the time of the group its bytes
+   are cut from (emit), this is the first data packet of the chunk's 50 ms merge group in its direction.
+   nondec 0 (times_of d cks): the chunk times of direction d do not decrease along Data(). *)
+Theorem C01_data_chunk_times : forall gcap L w r,
+  16 < gcap <= 4 * P16 ->
+  Forall (fun ids => wf_meta (snd ids)) L ->
+  add_streams gcap new_writer L = Some w -> new_reader (finalize w) = Some r -> lenN (w_packets w) < P32 ->
+  forall k id s rec cks, nth_error L k = Some (id, s) -> wf_packets s -> wf_data s ->
+    lenN (stream_payload s false) + lenN (stream_payload s true) < P64 ->
+    nth_error (all_streams r) k = Some rec -> data r rec = Some cks ->
+    Forall (fun c => Pstart s (c_dir c) (c_ts c)) cks /\ nondec 0 (times_of false cks) /\ nondec 0 (times_of true cks).
+Proof. exact data_chunk_times_stored. Qed.
+
+(* the groups themselves: every group of direction d starts at a group-opening data packet of direction d, group times
+   do not decrease *)
+Theorem C01_input_groups : forall s, wf_packets s ->
+  Forall (fun tz => Pstart s false (fst tz)) (fst (groups_of s)) /\ Forall (fun tz => Pstart s true (fst tz)) (snd (groups_of s)) /\
+  nondec 0 (map fst (fst (groups_of s))) /\ nondec 0 (map fst (snd (groups_of s))).
+Proof. exact groups_of_spec. Qed.
+
+(* weaker, kept: every chunk time is the time of a data-carrying packet of its direction *)
+Theorem C01_data_chunk_times_carrying_packet : forall gcap L w r,
   16 < gcap <= 4 * P16 ->
   Forall (fun ids => wf_meta (snd ids)) L ->
   add_streams gcap new_writer L = Some w -> new_reader (finalize w) = Some r -> lenN (w_packets w) < P32 ->
